@@ -819,7 +819,7 @@ class SimpleShape(DefinedShape):
             raise ValueError
         if not isinstance(other, SimpleShape):
             return False
-        if float(self) != float(other):
+        if abs(float(self) - float(other)) > 1e-6:
             return False
         return self.jordans[0] == other.jordans[0]
 
@@ -1084,7 +1084,7 @@ class DisjointShape(DefinedShape):
         assert isinstance(other, BaseShape)
         if not isinstance(other, DisjointShape):
             return False
-        if float(self) != float(other):
+        if abs(float(self) - float(other)) > 1e-6:
             return False
         self_subshapes = list(self.subshapes)
         othe_subshapes = list(other.subshapes)
